@@ -189,7 +189,7 @@ class Fam:
                     name, (" + " + macro) if macro else "")
                 f["args"] = 2
             elif kind == "sswitch":
-                n = rng.weighted([(1, 1), (2, 2), (3, 3), (5, 3), (9, 3), (17, 2), (40, 1)])
+                n = rng.weighted([(1, 4), (2, 8), (3, 12), (5, 12), (9, 12), (17, 8), (40, 4), (130, 1), (257, 1), (270, 1)])
                 labels = []
                 while len(labels) < n:
                     l = self.label()
